@@ -347,6 +347,12 @@ def _eval_tree(hed_text, handlers):
     return code, again, before == after, (before[0], after[0])
 
 
+def _rejected(bad):
+    t, oc = bad
+    return ("wellformed-rejected:" + oc, "the well-formed query %r does not compile (%s)" % (t, oc),
+            {"kind": "compile", "text": t, "expect": "accept"})
+
+
 def _gen_worker(job):
     """Replay a slice of the TLC-emitted (annotation x query universe) cases."""
     tids, seed = job
@@ -362,14 +368,18 @@ def _gen_worker(job):
         if fi not in hcache:
             texts = [q_text(q, style=fi % 2, andtok="," if fi % 3 == 2 else "&&", bare=bool(fi % 2))
                      for q in fam["cq_cased"]]
-            hs_ = []
+            hs_, bad = [], None
             for t in texts:
                 h, oc = compile_query(t)
-                if h is None:
-                    raise RuntimeError("generated query %r does not compile: %s" % (t, oc))
+                if h is None and bad is None:
+                    bad = (t, oc)
                 hs_.append(h)
-            hcache[fi] = (texts, hs_)
-        texts, handlers = hcache[fi]
+            hcache[fi] = (texts, hs_, bad)
+        texts, handlers, bad = hcache[fi]
+        if bad:
+            # a query the grammar (and the model's parser) accepts is refused: its documented meaning is unavailable
+            out["problems"].append(_rejected(bad))
+            continue
         forms = fam["forms"]
 
         def concrete(par, lab):
@@ -440,12 +450,15 @@ def _deep_worker(job):
     for c in cases:
         v = c["verdict"]
         texts = c["texts"]
-        handlers = []
+        handlers, bad = [], None
         for t in texts:
             h, oc = compile_query(t)
-            if h is None:
-                raise RuntimeError("generated query %r does not compile: %s" % (t, oc))
+            if h is None and bad is None:
+                bad = (t, oc)
             handlers.append(h)
+        if bad:
+            out["problems"].append(_rejected(bad))
+            continue
         s, s2 = c["hed"], c["hed2"]
         code, again, same, strs = _eval_tree(s, handlers)
         out["n"] += len(code)
@@ -793,10 +806,10 @@ def run(ctx):
 
     # ---- 2. design runs: tokenizer / parser -----------------------------------------------------
     ctx.tlc("MC_Query", "MC_QueryText.cfg", workers=ncpu, coverage=True, env=JAVA_ENV, timeout=900,
-            label="parser: PDA = recursive descent, unbalanced rejected, all lexeme strings <= 4")
+            label="parser: PDA = recursive descent, unbalanced rejected, all lexeme strings <= 4 (core alphabet)")
     if not quick:
         ctx.tlc("MC_Query", "MC_QueryText_deep.cfg", workers=ncpu, env=JAVA_ENV, timeout=1800,
-                label="parser invariants, core alphabet, all lexeme strings <= 6")
+                label="parser invariants, all lexeme strings <= 5 (core alphabet)")
     rl = _expect_violation(ctx, "MC_QueryText_lenient.cfg", "UnbalancedRejectedLenient",
                            "the parser as the code implements it does NOT reject all unbalanced texts", workers=2, timeout=300)
     for cfg, inv in [("MC_QueryText_vac_acc.cfg", "NeverAccepts"), ("MC_QueryText_vac_unb.cfg", "NeverUnbalanced")]:
@@ -961,6 +974,9 @@ def run(ctx):
     ctx.traces += tot["n"]
     ctx.nontrivial.update("t:" + c["text"] for c in allt if c["lenient"] or not c["balanced"])
     ctx.note("query_texts", tot)
+    if ctx.extra.get("spec_drift"):
+        print("SPEC-DRIFT C15: %d answers differ between model and code outside the statement's clauses, e.g. %s"
+              % (ctx.extra["spec_drift"], json.dumps(ctx.extra.get("spec_drift_examples", [])[:2])))
     ctx.sample({"query_text": "( a || a ) && [ a ]", "model": "accept", "code": compile_query("( a || a ) && [ a ]")[1]}, cap=7)
 
 
@@ -970,6 +986,8 @@ def replay(obj):
     kind = obj["kind"]
     if kind == "compile":
         h, oc = compile_query(obj["text"])
+        if obj["expect"] == "accept":
+            return oc == "ok", "QueryHandler(%r): %s (a well-formed query must compile)" % (obj["text"], oc)
         if obj["expect"] == "reject":
             return oc == "ValueError", "QueryHandler(%r): %s (unbalanced grouping symbols must raise ValueError)" % (obj["text"], oc)
         return oc in ("ok", "ValueError"), "QueryHandler(%r): %s" % (obj["text"], oc)
